@@ -57,6 +57,8 @@ def _mask(rng, p=0.3, lens=(2, 3, 4, 5, 6)):
 def gen_world(rng, tier, flavour=None):
     big = tier == "thorough"
     asize = rng.choice([2, 2, 2, 3] if not big else [2, 2, 3])
+    if flavour != "C08" and rng.random() < 0.06:
+        asize = 1  # one letter: every expansion has a single (possibly empty) longer child
     if flavour == "C02" and rng.random() < 0.25:
         asize = 3  # three letters: overlapping cycles of one-way renamings
     alphabet = list(range(asize))
@@ -190,6 +192,15 @@ def gen_pack(rng, world, flavour=None, allow_iterative=True):
                 }
             ]
         ]
+    if flavour != "C08" and rng.random() < 0.15:
+        # the same expansion with the atom folded into a user-defined constructor: all children may be empty
+        folded = {"t": "ExpandFolded", "mask": _mask(rng, 0.3), "lazy": lazy()}
+        if rng.random() < 0.3 and all(x["t"] == "Expand" for x in expansion[0]):
+            expansion[0] = [folded]
+        elif rng.random() < 0.5:
+            expansion[0].append(folded)
+        else:
+            expansion[0].insert(0, folded)
     ver = []
     if not tracked and not track_used and rng.random() < 0.5:
         ver.append({"t": "AtomStrategy"})
@@ -215,12 +226,16 @@ def gen_pack(rng, world, flavour=None, allow_iterative=True):
                         st["drop"] = True
                         st["atom_last"] = True
     symmetries = []
-    if rng.random() < 0.2:
+    if rng.random() < 0.2 and len(world["alphabet"]) >= 2:
         n = len(world["alphabet"])
         perm = list(range(n))
         while perm == list(range(n)):
             rng.shuffle(perm)
-        symmetries.append({"t": "LetterPermutation", "perm": perm, "mask": _mask(rng, 0.1), "lazy": False})
+        if rng.random() < 0.3:
+            # the symmetry as a factory of ready-made rules, one of them for the image class
+            symmetries.append({"t": "OrbitFactory", "perm": perm, "mask": _mask(rng, 0.1), "foreign_first": rng.random() < 0.5})
+        else:
+            symmetries.append({"t": "LetterPermutation", "perm": perm, "mask": _mask(rng, 0.1), "lazy": False})
     return {
         "initial": initial,
         "inferral": inferral,
